@@ -277,8 +277,15 @@ fn exec<C: Suite>(c: &Case, mut rng: ScriptedRng, fx: &Fixture<C>) -> Result<Obs
             }
             let r = v.verify(&mut rng);
             output.push(r.is_ok() as u8);
-            ok = r.is_ok();
-            secrets = n as usize;
+            // a second batch from the same source: adjacent items under the SAME key (and the same item twice)
+            let mut v2 = fc::batch::Verifier::<C>::new();
+            for i in 0..n as usize {
+                v2.queue(fx.items_same[(i / 2 * 2 + i % 2) % fx.items_same.len()].clone());
+            }
+            let r2 = v2.verify(&mut rng);
+            output.push(r2.is_ok() as u8);
+            ok = r.is_ok() && r2.is_ok();
+            secrets = 2 * n as usize;
         }
         other => return Err(format!("unknown entry {other}")),
     }
@@ -290,6 +297,8 @@ struct Fixture<C: Suite> {
     pkp2: fc::keys::PublicKeyPackage<C>,
     comms2: BTreeMap<Id<C>, fc::round1::SigningCommitments<C>>,
     items: Vec<fc::batch::Item<C>>,
+    /// items 2k and 2k+1 share a key (item 3 repeats item 2 exactly)
+    items_same: Vec<fc::batch::Item<C>>,
 }
 impl<C: Suite> Fixture<C> {
     fn new() -> Result<Self, String> {
@@ -305,7 +314,16 @@ impl<C: Suite> Fixture<C> {
             let sig = key.sign(&mut rng, msg.as_bytes());
             items.push(fc::batch::Item::<C>::new(fc::VerifyingKey::<C>::from(&key), sig, msg.as_bytes()).map_err(e2s("item"))?);
         }
-        Ok(Fixture { sk, pkp2: g.pkp.clone(), comms2, items })
+        let mut items_same = vec![];
+        for k in 0..4usize {
+            let key = SigningKey::<C>::from_scalar(sc_seeded_nz::<C>(&format!("c16same{}", k / 2))).map_err(e2s("sk"))?;
+            let m = if k == 3 { 2 } else { k };
+            let mut rng = ScriptedRng::ctr(format!("c16same{m}"));
+            let msg = format!("same-key item {m}");
+            let sig = key.sign(&mut rng, msg.as_bytes());
+            items_same.push(fc::batch::Item::<C>::new(fc::VerifyingKey::<C>::from(&key), sig, msg.as_bytes()).map_err(e2s("item"))?);
+        }
+        Ok(Fixture { sk, pkp2: g.pkp.clone(), comms2, items, items_same })
     }
     fn group(&self, n: u16, t: u16) -> Result<std::sync::Arc<Grp<C>>, String> {
         cached_group::<C>(KeySrc::Dealer, n, t, IdKind::Seq, "c16g")
@@ -398,8 +416,8 @@ fn run_case<C: Suite>(c: &Case) -> Outcome {
     // (e) every single-draw deviation changes the output (batch: the verdict cannot change; the
     // recording is checked instead)
     if c.entry == "batch::Verifier::verify" {
-        if base.calls != cps * c.n as usize {
-            o.fail(format!("{tag}/blinder-draws"), format!("{ctx}: {} draws for {} items ({} draws per scalar): not one fresh blinder per item", base.calls, c.n, cps));
+        if base.calls != cps * 2 * c.n as usize {
+            o.fail(format!("{tag}/blinder-draws"), format!("{ctx}: {} draws for 2 x {} items ({} draws per scalar; the second batch has adjacent items under the same key and a repeated item): not one fresh blinder per item", base.calls, c.n, cps));
         }
         o.count("deviations_checked", base.calls as u64);
     } else if !C::TINY {
@@ -419,6 +437,46 @@ fn run_case<C: Suite>(c: &Case) -> Outcome {
         }
     } else {
         o.count("deviations_checked", 1);
+    }
+    // (h) source answers outside the scalar range (all ones; order + 1 in either byte order - none of them
+    // congruent to 0): Field::random must not make zero of them (it reduces, or draws again), and with such an
+    // answer to any single draw the entry point still works and its values stay pairwise distinct
+    if !C::TINY && c.entry != "batch::Verifier::verify" {
+        let qm1 = sc_bytes::<C>(&neg::<C>(one::<C>()));
+        let mut raws: Vec<(String, Vec<u8>)> = vec![("all-ones".into(), vec![0xff; 256])];
+        {
+            let l = qm1.len();
+            let mut a = qm1.clone();
+            a[0] = a[0].wrapping_add(2);
+            let mut b = qm1.clone();
+            b[l - 1] = b[l - 1].wrapping_add(2);
+            raws.push(("order+1 (first byte)".into(), a));
+            raws.push(("order+1 (last byte)".into(), b));
+        }
+        for (name, bytes) in &raws {
+            let mut r = ScriptedRng::ctr("h-unit").with_dev(0, Dev::Bytes(bytes.clone()));
+            if F::<C>::random(&mut r) == zero::<C>() {
+                o.fail(format!("{tag}/out-of-range-answer-becomes-zero"), format!("{ctx}: Field::random turns the source answer '{name}' (not congruent to 0) into the zero scalar"));
+            }
+        }
+        for j in 0..base.calls {
+            match exec::<C>(c, ScriptedRng::ctr(base_label.clone()).with_dev(j, Dev::Bytes(vec![0xff; 256])), &fx) {
+                Ok(a) => {
+                    o.count("out_of_range_answers", 1);
+                    if !a.ok {
+                        o.fail(format!("{tag}/out-of-range-draw-unusable"), format!("{ctx}: all-ones answer to draw {j}: unusable output"));
+                    }
+                    for p in 0..a.listed.len() {
+                        for q in (p + 1)..a.listed.len() {
+                            if a.listed[p].1 == a.listed[q].1 {
+                                o.fail(format!("{tag}/values-coincide"), format!("{ctx}: all-ones answer to draw {j}: {} and {} are equal within one call", a.listed[p].0, a.listed[q].0));
+                            }
+                        }
+                    }
+                }
+                Err(e) => o.fail(format!("{tag}/out-of-range-draw-unusable"), format!("{ctx}: all-ones answer to draw {j}: {e}")),
+            }
+        }
     }
     // (f) zero answers to the key draw and the proof-nonce draw are rejected
     let zero_targets: Vec<(&str, usize)> = match c.entry.as_str() {
